@@ -4,6 +4,7 @@ import Percival.Proofs.AFUAcct
 import Percival.Proofs.AfStep
 import Percival.Proofs.UpStep
 import Percival.Proofs.AfMonSound
+import Percival.Proofs.UpMonSound
 /-!
 # C14 — allocation failure is reported, leaves objects unchanged and leaks nothing (proof-level part)
 
@@ -634,5 +635,45 @@ example : Proofs.AfMonSound.OpsOk [.failat 5, .hInit, .hAdd 5 7, .hAdd 3 2, .hMi
 
 /-- without `OpOk` the statement is false: `reg_imm 0 40` registers nothing, is answered `ok`, and keeps two blocks -/
 example : Spec.AfMon.acceptsRun {} (Proofs.AfMonReg.answered {} [.regImm 0 40, .end_]) = false := by decide +kernel
+
+/-! ## Monitor soundness: `pmodel upmon` (`Spec.UpMon.monStep`) raises no false alarm on `pmodel upmodel`
+
+`Proofs.UpMonSound.UInv s`: the world satisfies `Inv` and the accounting `EvAcct` (both independent of the oracle's
+decision function, so a schedule line keeps them), the harness' handle tables name **exactly** the objects of the
+world that are not owned by another object (distinct handles below 32, distinct objects), readers' and writers'
+descriptors are slots (< 88), and the length the harness believes reserved in a writer is available.  From it:
+the pre-checks of `callOf` put every call inside the library's contract (`Ready`, or one of the two legal situations
+`Ready` does not cover: `netbuf_read_wait(0)` on a busy descriptor, `netbuf_write_consume/write` while the writer's own
+transfer is registered), so a failure has `rf > 0` (`upper_failure_needs_refusal`); every release the harness makes
+names an object that is `Present`, so it is `ok`, never `model-contract` (`upper_release_cannot_fail`); the harness'
+release order empties every table, so `end` shows `live=0` (`atexitAll_frees_everything`). -/
+
+open Percival.Proofs.UpMonSound in
+/-- **One line** of `pmodel upmodel` from a state satisfying `UInv` is accepted by `Spec.UpMon.monStep`, and `UInv`
+holds afterwards.  `WF s op` is the one thing not derived: for `nc_start` / `hq_start`, that the descriptor
+`freshFd` picks has no write registration and fewer than 2^32 timers exist (the connect-specific part of `Ready`;
+`freshFd` avoids only the sockets of outstanding connects, so it could reach a slot descriptor 64..87 only with
+more than 60 connects outstanding, which 32 + 32 handles do not allow — that counting argument is what is
+missing).  For every other op `WF s op` holds trivially. -/
+theorem up_monitor_accepts_model_step_partial (s : UpStep.S) (op : UpStep.Op) (h : UInv s) (wf : WF s op) :
+    (Spec.UpMon.monStep () (UpStep.kindOf op) (UpStep.stepOp s op).2.ans).2 = none ∧ UInv (UpStep.stepOp s op).1 :=
+  up_step_sound s op h wf
+
+example : Proofs.UpMonSound.UInv ({} : UpStep.S) := Proofs.UpMonSound.uinv_init
+/-- `WF` is trivial for an op that is not a connect -/
+example (s : UpStep.S) : Proofs.UpMonSound.WF s (.start .read 0 0) :=
+  ⟨fun a tm l fd h => by
+    rcases h with h | h <;> (simp only [UpStep.callOf] at h; split at h <;> (try split at h) <;> cases h)⟩
+/-- the monitor is not trivial: `fail rf=0` is rejected -/
+example : (Spec.UpMon.monStep () .call { head := .fail, ntoks := 2, rf := some 0 }).2 ≠ none ∧
+    (Spec.UpMon.monStep () .call { head := .fail, ntoks := 2, rf := some 1 }).2 = none := by decide
+
+open Percival.Proofs.UpMonSound in
+/-- **Whole cases** from the initial state: every line of a run in which every connect is `WF` is accepted.
+(Full statement, open: the same without `WFRun`, for every op list with fewer than 57 `nc_start` / `hq_start` lines.) -/
+theorem up_monitor_accepts_model_partial (ops : List UpStep.Op) (wf : WFRun {} ops) :
+    ∀ p ∈ (UpStep.runOps {} ops).zip ops,
+      (Spec.UpMon.monStep () (UpStep.kindOf p.2) p.1.2.ans).2 = none :=
+  up_run_sound {} ops uinv_init wf
 
 end Percival.C14
